@@ -46,16 +46,28 @@ pub fn drop_case(id: usize, unix: bool, tmpdir: &str) -> String {
         let mut c = std::os::unix::net::UnixStream::connect(&path).unwrap();
         c.write_all(b"GET /held HTTP/1.1\r\nHost: x\r\n\r\n").unwrap();
         let rq = server.recv_timeout(Duration::from_secs(2)).unwrap().unwrap();
+        // a second name of the socket file: removing the path must not be what makes connecting
+        // fail — the listener itself has to be gone
+        let link = format!("{}.link", path);
+        let _ = std::fs::remove_file(&link);
+        let linked = std::fs::hard_link(&path, &link).is_ok();
         drop(server);
+        // the first attempt through the other name, a quarter of a second after the drop, must be
+        // refused already (an attempt that is accepted would itself wake a stuck accept loop up)
+        std::thread::sleep(Duration::from_millis(250));
+        if linked && std::os::unix::net::UnixStream::connect(&link).is_ok() {
+            first_refused = false;
+        }
         let t0 = Instant::now();
         let mut r = -1i64;
         while t0.elapsed() < Duration::from_millis(1500) {
-            if std::os::unix::net::UnixStream::connect(&path).is_err() {
+            if std::os::unix::net::UnixStream::connect(&path).is_err() && (!linked || std::os::unix::net::UnixStream::connect(&link).is_err()) {
                 r = t0.elapsed().as_millis() as i64;
                 break;
             }
             std::thread::sleep(Duration::from_millis(5));
         }
+        let _ = std::fs::remove_file(&link);
         refused_ms = r;
         path_removed = if std::path::Path::new(&path).exists() { "0".into() } else { "1".into() };
         let _ = rq.respond(Response::from_string("done"));
